@@ -71,7 +71,23 @@ var (
 	uPtr    *S             = s1
 	uStruct S              = S{A: 5}
 	uSlice  []int          = l1
+	uFunc   func() int     = f0
+	// interface-typed unexported variables (separate probe stream: -extra ue-iface)
+	uErr error       = e1
+	uAny interface{} = 42
 )
+
+// E returns the i-th error value of the zoo (1..3).
+func E(i int) error { return []error{e1, e2, e3}[i-1] }
+
+//go:noinline
+func RdUErr() error { return uErr }
+
+//go:noinline
+func RdUAny() interface{} { return uAny }
+
+// ResetUIface puts the interface-typed unexported variables back (bypasses goom).
+func ResetUIface() { uErr, uAny = e1, 42 }
 
 // Var describes one variable of the zoo.
 type Var struct {
@@ -143,6 +159,7 @@ func Zoo() []Var {
 		{Name: "uMap", Path: pkg + ".uMap", Vals: []interface{}{m3, m1, m2, map[string]int(nil)}, Read: func() interface{} { return uMap }, ReadCopy: func() interface{} { return rdUMap() }, Same: sameRef},
 		{Name: "uPtr", Path: pkg + ".uPtr", Vals: []interface{}{s1, s2, s3, (*S)(nil)}, Read: func() interface{} { return uPtr }, ReadCopy: func() interface{} { return rdUPtr() }, Same: eq},
 		{Name: "uStruct", Path: pkg + ".uStruct", Vals: []interface{}{S{A: 5}, S{}, S{A: 6, B: "b"}, S{B: "q"}}, Read: func() interface{} { return uStruct }, ReadCopy: func() interface{} { return rdUStruct() }, Same: func(a, b interface{}) bool { return fmt.Sprint(a) == fmt.Sprint(b) }},
+		{Name: "uFunc", Path: pkg + ".uFunc", Vals: []interface{}{f0, f1, f2, f3}, Read: func() interface{} { return uFunc }, Same: sameRef},
 		{Name: "uSlice", Path: pkg + ".uSlice", Vals: []interface{}{l1, l2, l3, []int(nil)}, Read: func() interface{} { return uSlice }, ReadCopy: func() interface{} { return rdUSlice() }, Same: sameRef},
 	}
 }
@@ -152,5 +169,5 @@ func ResetAll() {
 	VInt, VUint8, VString, VFloat, VBool, VCplx = 7, 200, "orig", 1.5, true, complex(1, 2)
 	VSlice, VMap, VStruct, VPtr, VFunc, VFuncNil = nil, nil, S{A: 9, B: "nine"}, nil, f0, nil
 	VErr, VStrIf, VAny, VArr, VChan, VAny2 = nil, Str("zero"), nil, [3]int{1, 2, 3}, nil, 42
-	uInt, uString, uMap, uPtr, uStruct, uSlice = 70, "uorig", m3, s1, S{A: 5}, l1
+	uInt, uString, uMap, uPtr, uStruct, uSlice, uFunc = 70, "uorig", m3, s1, S{A: 5}, l1, f0
 }
